@@ -55,8 +55,42 @@ def gen_case(rng, allow=None, n_max=6, deviations=False):
         last['boundaries'] = [1, 2, 3] + [b + 2 for b in last['boundaries']]
         last['classes'] = dict(last['classes'], style='blank-line-first')
         last['then'] = 'eof'
+    special = rng.random()
+    if special < 0.04:
+        # a length-delimited response followed, in the same segment, by bytes that look like a complete response of their own
+        # (a confused or hostile server), then an ordinary exchange with the same host: the forged bytes belong to no exchange
+        import zlib as _z
+        first = httpgen.gen_response(rng, allow=['length'])
+        # (with an empty body no body read happens at all and the surplus is never looked at: C08's recorded finding)
+        while first['surplus'] or first['classes']['conn_close_linger'] or len(first['wire']) > 3000 or len(first['wire']) <= first['head_len']:
+            first = httpgen.gen_response(rng, allow=['length'])
+        forged = b'HTTP/1.1 200 OK\r\nContent-Type: text/html\r\nContent-Length: 6\r\n\r\nforged'
+        first['wire'] += forged
+        first['surplus'] = len(forged)
+        first['fixed_cuts'] = [len(first['wire']) - len(forged) - 1] if rng.random() < 0.5 else []
+        first['classes'] = dict(first['classes'], framing='overrun-forged-response')
+        second = httpgen.gen_response(rng, allow=['length', 'chunked'])
+        seq = [first, second]
+        for r in seq:
+            if not r.get('fixed_cuts'):
+                r['fixed_cuts'] = r.get('fixed_cuts') or []
+        first['whole'] = True
+    elif special < 0.08:
+        # a body that ends with the connection, coded as two gzip members that arrive in separate segments
+        import gzip as _g
+        a, b2 = _g.compress(b'first member ' * rng.randrange(1, 30)), _g.compress(b'second member ' * rng.randrange(1, 30))
+        head = b'HTTP/1.1 200 OK\r\nServer: sim\r\nContent-Type: text/plain\r\nContent-Encoding: gzip\r\n\r\n'
+        last = {'wire': head + a + b2, 'then': 'eof', 'method': 'GET', 'head_len': len(head), 'surplus': 0, 'interim_len': 0,
+                'classes': {'framing': 'close', 'style': 'canonical', 'coding': 'gzip-two-members', 'body': 'text', 'conn_close_linger': False,
+                            'chunk_style': None},
+                'expect': {'status': 200, 'body': None}, 'boundaries': [len(head) + len(a)],
+                'fixed_cuts': [len(head) + len(a)] + ([len(head) + len(a) + 5] if rng.random() < 0.5 else [])}
+        seq = seq[:-1] + [last] if seq[-1]['classes']['framing'] != 'overrun' else [last]
     case = {'config': gen_config(rng), 'seq': seq, 'seg_seed': rng.randrange(1 << 30),
             'seg_mode': rng.choice(['whole', 'bytes', 'random', 'random', 'cut'])}
+    if seq[0].get('whole'):
+        case['seg_mode'] = 'whole'
+        case['whole_only'] = True
     if seq[-1]['classes']['framing'] in ('close', 'length') and rng.random() < 0.15:
         # the server goes silent in the middle of the last response body: the client gives up after its read timeout, the
         # exchange is not completed (and must not be archived as if it were)
@@ -67,7 +101,7 @@ def gen_case(rng, allow=None, n_max=6, deviations=False):
     if case['config']['rerun'] and case['config']['max_size'] and not case['config']['appending']:
         case['config']['compress'] = False      # (sizes of gzip members vary with the record ids: file numbering would too)
         case['config']['dedup'] = False
-    if rng.random() < 0.1 and not any(r['classes']['framing'] in ('overrun', 'overrun0', 'nobody+cl', 'head+cl') for r in seq):
+    if rng.random() < 0.1 and not any(r['classes']['framing'] in ('overrun', 'overrun0', 'overrun-forged-response', 'nobody+cl', 'head+cl') for r in seq):
         # the client option --ignore-length (Content-Length not trusted; such bodies end with the connection): every
         # response is followed by the end of its connection
         case['config']['ignore_length'] = True
@@ -84,6 +118,13 @@ def gen_case(rng, allow=None, n_max=6, deviations=False):
 
 def pieces_for(rng, r, mode):
     wire = r['wire']
+    if r.get('fixed_cuts'):
+        # this response is always delivered in these pieces (what it is about depends on where the reads end)
+        out, prev = [], 0
+        for c in r['fixed_cuts'] + [len(wire)]:
+            out.append(wire[prev:c])
+            prev = c
+        return [x for x in out if x]
     if mode == 'whole' or len(wire) < 2:
         return [wire]
     if mode == 'bytes':
